@@ -83,6 +83,12 @@ def foo(z: f32[8]):
 def foo(x: f32[4]):
     x[0] = relu(select(x[0], x[1], x[2], x[3]))
 """, "foo"),
+    # D8: nested unary minus is printed as the C pre-decrement operator (wrong value; an error only when x is const)
+    ("d8_double_unary_minus", HEADER + """
+@proc
+def foo(x: f32[4], y: f32[4]):
+    y[0] = -(-(x[0]))
+""", "foo"),
     # controls: consistent
     ("ok_chain_f64", HEADER + """
 @proc
